@@ -86,6 +86,7 @@ def _worker(job):
             "samples": res.samples,
             "hashes": {k: driver.func_source_hash(I, k) for k in sorted(res.reached) if k.startswith("geckolib")},
             "module_file": h["func"].module.name,
+            "sidecars": ["contracts." + os.path.splitext(os.path.basename(f))[0] for f in sidecar_files(prop)],
         }
         return out
     except Exception as e:
@@ -271,7 +272,7 @@ def report(prop, spec, args, seed, results, extra, t0):
                 undecided.append("%s: solver returned unknown (%s)" % (full, f["detail"]))
                 continue
             rp = os.path.join(VERIF, "replays", "%s_%s_%s.json" % (prop, r["harness"], re.sub(r"[^A-Za-z0-9_.-]", "_", f["name"])))
-            doc = {"property": prop, "harness": r["base_harness"], "case": r["case"], "cases": r.get("cases_fn"), "sidecar": r["module_file"], "obligation": full,
+            doc = {"property": prop, "harness": r["base_harness"], "case": r["case"], "cases": r.get("cases_fn"), "sidecar": r["module_file"], "sidecars": r.get("sidecars", []), "obligation": full,
                    "obligation_name": f["name"], "model": f["model"], "uses": r["uses"], "loops": r["loops"],
                    "solver": f["solver"], "solver_output": f["detail"], "location": f["loc"], "kind": "harness",
                    "case_desc": r.get("case_desc")}
